@@ -6,6 +6,15 @@ package main
 //
 //	inr <node> <radius hex> <content id> | ok true|false / panic
 import (
+	"fmt"
+	"os"
+	"runtime"
+	"strconv"
+	"strings"
+	"sync"
+	"sync/atomic"
+	"time"
+
 	"github.com/ethereum/go-ethereum/p2p/enode"
 	"github.com/holiman/uint256"
 	"github.com/zen-eth/shisui/portalwire"
@@ -27,7 +36,15 @@ func init() {
 		r, _ := uint256.FromHex("0x" + f[2])
 		stInRange(c, unhx(f[1]), r, unhx(f[3]))
 	}
+	stExtraExec["lin06"] = func(c *Ctx, f []string) {
+		var node [32]byte
+		copy(node[:], unhx(f[2]))
+		n, _ := strconv.ParseUint(f[1], 10, 64)
+		g, _ := strconv.Atoi(f[4])
+		stLin06(c, n, node, linParsePlan(f[3]), g)
+	}
 	stExtraGens["06"] = func(c *Ctx) {
+		lin06Gen(c)
 		r := c.Rng
 		n := 1500
 		if c.Tier == "thorough" {
@@ -91,5 +108,169 @@ func init() {
 		cid := make([]byte, 32)
 		cid[6] = 1
 		stInRange(c, make([]byte, 32), uint256.NewInt(512), cid)
+	}
+}
+
+// ---------------------------------------------------------------- radius clauses under concurrent puts
+//
+//	lin06 <capMB> <node> <plan> <gate> | ok <events> <final observation> <observation after the race> <radius samples>
+//
+// plan/events/final as in the lin lines of C05.  Goroutine 0 is the writer that fills the store: it issues its first
+// <gate> puts alone; just before its put number <gate> - the one that goes over capacity, prunes and shrinks the
+// radius - all other goroutines are released, each putting one FAR id; after they have all returned goroutine 0
+// issues the rest of its puts (another over-capacity put, so that a second prune runs).  A sampler goroutine reads
+// Radius() in a loop during the whole run; its (totally ordered) samples are reported with repetitions removed.
+// Node id 0 and ids 00..00 xx: on this family the little-endian reading the code uses orders keys exactly as their
+// byte order does (it is the big-endian value times 2^248), so the check is independent of the known
+// little-endian finding.
+func stLin06(c *Ctx, capMB uint64, node [32]byte, plan [][]linPut, gate int) {
+	head := fmt.Sprintf("lin06 %d %s %s %d", capMB, hx(node[:]), linPlanString(plan), gate)
+	var out string
+	p, msg := guard(func() {
+		dir := stTempDir()
+		defer os.RemoveAll(dir)
+		s, err := stOpen(dir, capMB, node)
+		if err != nil {
+			panic(err)
+		}
+		defer func() { s.close() }()
+		var clock atomic.Int64
+		events := make([][]string, len(plan))
+		for t := range plan {
+			events[t] = make([]string, len(plan[t]))
+		}
+		// the bytes of every value are generated beforehand: nothing but the Put itself runs inside the race
+		vals := make([][][]byte, len(plan))
+		for t := range plan {
+			vals[t] = make([][]byte, len(plan[t]))
+			for j, pt := range plan[t] {
+				vals[t][j] = pt.val.Bytes()
+			}
+		}
+		put := func(t, j int) {
+			pt := plan[t][j]
+			b := vals[t][j]
+			inv := clock.Add(1)
+			err := s.cs.Put(nil, pt.id, b)
+			resp := clock.Add(1)
+			events[t][j] = fmt.Sprintf("%d.%d.%s", inv, resp, putRes(err))
+		}
+		// the sampler
+		var stop atomic.Bool
+		var samples []string
+		var sampDone sync.WaitGroup
+		sampDone.Add(1)
+		go func() {
+			defer sampDone.Done()
+			last := ""
+			for !stop.Load() {
+				r := s.cs.Radius().Hex()[2:]
+				if r != last {
+					samples = append(samples, r)
+					last = r
+				}
+				runtime.Gosched()
+			}
+			r := s.cs.Radius().Hex()[2:]
+			if r != last {
+				samples = append(samples, r)
+			}
+		}()
+		for j := 0; j < gate && j < len(plan[0]); j++ {
+			put(0, j)
+		}
+		var wg sync.WaitGroup
+		var release atomic.Bool
+		for t := 1; t < len(plan); t++ {
+			wg.Add(1)
+			go func(t int) {
+				defer wg.Done()
+				for !release.Load() {
+				}
+				// arrive a few microseconds after the pruning put has started (it takes the lock at once and then
+				// spends > 100 us committing 150 kB and some milliseconds pruning): the window of the race
+				t0 := time.Now()
+				for time.Since(t0) < time.Duration(5+7*t)*time.Microsecond {
+				}
+				for j := range plan[t] {
+					put(t, j)
+				}
+			}(t)
+		}
+		time.Sleep(200 * time.Microsecond) // let the waiting goroutines reach their spin loop
+		if gate < len(plan[0]) {
+			release.Store(true)
+			put(0, gate)
+		} else {
+			release.Store(true)
+		}
+		wg.Wait()
+		// quiescent: everybody has returned from the race.  The observation here is the one the retained-within-radius
+		// monitor looks at (the second prune below may remove the evidence again)
+		var ids0 [][]byte
+		seen0 := map[string]bool{}
+		for t := range plan {
+			for _, pt := range plan[t] {
+				if !seen0[string(pt.id)] {
+					seen0[string(pt.id)] = true
+					ids0 = append(ids0, pt.id)
+				}
+			}
+		}
+		mid := s.observe("-", ids0)
+		for j := gate + 1; j < len(plan[0]); j++ {
+			put(0, j)
+		}
+		waitPruneGoroutines()
+		stop.Store(true)
+		sampDone.Wait()
+		var ids [][]byte
+		seen := map[string]bool{}
+		var ev []string
+		for t := range plan {
+			for j, pt := range plan[t] {
+				if !seen[string(pt.id)] {
+					seen[string(pt.id)] = true
+					ids = append(ids, pt.id)
+				}
+				ev = append(ev, events[t][j])
+			}
+		}
+		out = strings.Join(ev, ";") + " " + s.observe("-", ids) + " " + mid + " " + strings.Join(samples, ">")
+	})
+	if p {
+		c.Emit("%s | panic %s", head, msg)
+		return
+	}
+	c.Emit("%s | ok %s", head, out)
+}
+
+func lin06Gen(c *Ctx) {
+	r := c.Rng
+	rounds := 10
+	if c.Tier == "thorough" {
+		rounds = 150
+	}
+	var node [32]byte
+	key := func(x byte) []byte { k := make([]byte, 32); k[31] = x; return k }
+	for i := 0; i < rounds; i++ {
+		var vid uint64 = uint64(7000 + 100*i)
+		big := func(n int) stVal { vid++; return stVal{long: true, vid: vid, n: n} }
+		// goroutine 0: three near items fill 90% of 1 MB, the gate put goes over capacity (prune: radius -> 00..03),
+		// afterwards an overwrite of a near item goes over capacity again (second prune)
+		w0 := []linPut{{key(1), big(300000)}, {key(2), big(300000)}, {key(3), big(300000)},
+			{key(4), big(150000 + 1000*r.Intn(100))}, {key(1), big(300000)}}
+		plan := [][]linPut{w0}
+		k := 3 + r.Intn(5)
+		for t := 0; t < k; t++ {
+			far := byte(0x80 + r.Intn(0x7f))
+			v := stVal{raw: r.Bytes(1 + r.Intn(15))}
+			if t%2 == 1 {
+				v = big(60000) // large enough that a later prune stops right after it (the radius would grow)
+			}
+			plan = append(plan, []linPut{{key(far), v}})
+		}
+		c.Count(fmt.Sprintf("lin06_waiting_goroutines_%d", k))
+		stLin06(c, 1, node, plan, 3)
 	}
 }
